@@ -20,15 +20,15 @@ theorem init_empty (input : Bytes) (flags : Nat) :
   rw [this.2]
 
 /-- weak invariant that survives the empty-backtick re-categorisation at the end of `fingerprint` -/
-def SInvW (s : State) : Prop := s.tv.length = 8 ∧ ∀ t ∈ s.tv, TokInv t
+def SInvW (s : State) : Prop := s.tv.length = 8 ∧ ∀ t ∈ s.tv, TokInv t ∧ (t.cat = 0 ∨ isClassU8 t.cat = true)
 
-theorem SInv.weak {s : State} (h : SInv s) : SInvW s := ⟨h.1, fun t ht => (h.2.2 t ht).1⟩
+theorem SInv.weak {s : State} (h : SInv s) : SInvW s := ⟨h.1, fun t ht => ⟨(h.2.2 t ht).1, (h.2.2 t ht).2.1⟩⟩
 
 theorem tvGetW (s : State) (hs : SInvW s) (i : Nat) (hi : i < 8) : ∃ t, tvGet s i = .ok t ∧ TokInv t ∧ s.tv[i]? = some t := by
   unfold tvGet
   have hlt : i < s.tv.length := by rw [hs.1]; exact hi
   rw [List.getElem?_eq_getElem hlt]
-  exact ⟨_, rfl, hs.2 _ (List.getElem_mem hlt), rfl⟩
+  exact ⟨_, rfl, (hs.2 _ (List.getElem_mem hlt)).1, rfl⟩
 
 theorem buildFp_ok (s : State) (hs : SInvW s) (length : Nat) (hl : length ≤ 8) :
     ∀ (fuel i : Nat) (acc : Bytes), length ≤ i + fuel →
@@ -79,7 +79,7 @@ def FpInv (input : Bytes) (st : State) : Prop :=
   (st.fingerprint = [88] ∨
     (SInvW st ∧ ∃ n, n ≤ 7 ∧ st.fingerprint = (st.tv.take n).map (·.cat) ∧ (n ≤ 2 → SInv st ∧ (n ≠ 0 → XFin st))))
 
-theorem tvSetW (s : State) (hs : SInvW s) (i : Nat) (hi : i < 8) (t : Token) (ht : TokInv t) :
+theorem tvSetW (s : State) (hs : SInvW s) (i : Nat) (hi : i < 8) (t : Token) (ht : TokInv t ∧ (t.cat = 0 ∨ isClassU8 t.cat = true)) :
     ∃ s', tvSet s i t = .ok s' ∧ SInvW s' ∧ s'.input = s.input ∧ s'.tv = s.tv.set i t := by
   have hlt : i < s.tv.length := by rw [hs.1]; exact hi
   rw [tvSet_ok s i t hlt]
@@ -105,7 +105,7 @@ theorem fingerprint_ok (input : Bytes) (flags : Nat) :
       simp only [ht, bind, Except.bind, pure, Except.pure]
       by_cases hc : (t.cat == 110 && t.strOpen == 96 && t.len == 0 && t.strClose == 0) = true
       · rw [if_pos hc]
-        obtain ⟨s2, h2, hs2, hi2, _⟩ := tvSetW s1 hs1.weak (n - 1) (by omega) { t with cat := 99 } hti
+        obtain ⟨s2, h2, hs2, hi2, _⟩ := tvSetW s1 hs1.weak (n - 1) (by omega) { t with cat := 99 } ⟨hti, Or.inr (show isClassU8 99 = true by decide)⟩
         exact ⟨s2, h2, hs2, by rw [hi2]; exact hin, fun h => by omega⟩
       · rw [if_neg hc]
         exact ⟨s1, rfl, hs1.weak, hin, fun _ => rfl⟩
